@@ -225,11 +225,13 @@ class DNSCache:
 
     def current_entry_with_name_and_alias(self, name: str, alias: str) -> Optional[DNSRecord]:
         now = current_time_millis()
+        # an instance name that differs only in letter case is the same name
+        alias_key = alias.lower()
         for record in reversed(self.entries_with_name(name)):
             if (
                 record.type == _TYPE_PTR
                 and not record.is_expired(now)
-                and cast(DNSPointer, record).alias == alias
+                and cast(DNSPointer, record).alias_key == alias_key
             ):
                 return record
         return None
